@@ -195,14 +195,9 @@ func (l *Loop) Run(chunks []Chunk, o Opts) (obs []Obs, failed string) {
 func Chunking(t *rapid.T, stream []byte, maxDelta int32) []Chunk {
 	var out []Chunk
 	mode := rapid.IntRange(0, 4).Draw(t, "chunkMode")
-	// a few pauses per stream may be very long (up to 2^28 ms, about three days); for the decoder
-	// checks the sum of all deltas stays below 2^31 ms, the range of the time stamps
+	// a few pauses per stream may be very long (up to 2^28 ms, about three days); the sum of all
+	// deltas stays below 2^31 ms, the range of the 32-bit time stamps
 	huge, maxHuge := 0, 4
-	if maxDelta >= 60000 {
-		// recordings (C13): the sum may pass 2^31 ms, where the int32 time stamps wrap around; the
-		// difference of two stamps is still the true gap as long as each single gap is below 2^31
-		maxHuge = 14
-	}
 	delta := func() int32 {
 		if maxDelta >= 5000 && huge < maxHuge && rapid.IntRange(0, 60).Draw(t, "hugePause?") == 0 {
 			huge++
